@@ -6,3 +6,7 @@ LEVEL = "model_checking"
 
 def run(ctx):
     passcheck.run_engine(ctx, "C05")
+
+
+def replay(ctx, detail) -> bool:
+    return passcheck.replay_detail(ctx, detail, "C05")
